@@ -35,7 +35,7 @@ EVT_RULE = ("Profile sys_evt: the sys set-up with five server event types (order
 
 PROPS = {
     "C01": {
-        "modules": ["Replicon.Props.C01"],
+        "modules": ["Replicon.Props.C01", "Replicon.Proofs.Jump"],
         "theorems": [
             "Replicon.C01.C01_progress_structure",
             "Replicon.C01.C01_progress_values",
@@ -60,12 +60,19 @@ PROPS = {
         "assumptions": ['partial: the end-to-end convergence theorem is replaced by per-run theorems + oracle on the implementation + exact model correspondence. Known findings F4 (periodic) and F20 (tick-0 race) are reported, tagged by the trace checker.'],
     },
     "C02": {
-        "modules": ["Replicon.Props.C02"],
+        "modules": ["Replicon.Props.C02", "Replicon.Proofs.WrapClient", "Replicon.Proofs.SentVals", "Replicon.Proofs.UpdateVals", "Replicon.Proofs.FrameVals"],
         "theorems": [
             "Replicon.C02.C02_record_atomic",
             "Replicon.C02.C02_monotone",
             "Replicon.C02.C02_record_complete",
             "Replicon.C02.C02_ack_on_apply",
+            "Replicon.C02.C02_update_changes_only_named_values",
+            "Replicon.C02.C02_pending_component_is_named",
+            "Replicon.C02.C02_tick_decision_across_wrap",
+            "Replicon.C02.C02_gate_across_wrap",
+            "Replicon.C02.C02_raw_comparison_skips_newer",
+            "Replicon.C02.C02_history_update_record_values",
+            "Replicon.C02.C02_mutate_record_values",
             "Replicon.C02.C02_known_finding_F20_witness",
         ],
         "profiles": [{"name": "sys", "shards": {"thorough": 8}}, {"name": "sys_split", "shards": {"thorough": 4}}],
@@ -105,7 +112,7 @@ PROPS = {
         "assumptions": ['partial: entities, marker and component kinds are proved for all histories across both models (update messages in order); pre-spawn mappings and the interleaving with mutate messages at the component level are covered by per-section theorems + exact correspondence + oracle.'],
     },
     "C04": {
-        "modules": ["Replicon.Props.C04"],
+        "modules": ["Replicon.Props.C04", "Replicon.Proofs.Jump"],
         "theorems": [
             "Replicon.C04.C04_stamp",
             "Replicon.C04.C04_update_tick_moves",
@@ -127,7 +134,7 @@ PROPS = {
         "assumptions": ["C04_history holds for all histories of the joint server model (any number of clients). What remains assumed for the unconditional statement: the ordered reliable channel delivers update messages in sending order, and NoTickZeroUpdate (known finding F20: with a replication run at tick 0 the statement is false for events too; replay findings/F20-event.trace). Both are checked on the implementation by the C04 oracles."],
     },
     "C05": {
-        "modules": ["Replicon.Props.C05"],
+        "modules": ["Replicon.Props.C05", "Replicon.Proofs.JumpEvents"],
         "theorems": [
             "Replicon.C05.C05_recipients",
             "Replicon.C05.C05_modes",
@@ -145,6 +152,9 @@ PROPS = {
             "Replicon.C05.C05_history_order",
             "Replicon.C05.C05_history_at_most_once",
             "Replicon.C05.C05_history_late_joiner",
+            "Replicon.C05.C05_history_order_with_tick_jumps",
+            "Replicon.C05.C05_history_at_most_once_with_tick_jumps",
+            "Replicon.C05.C05_history_late_joiner_with_tick_jumps",
             "Replicon.C05.C05_history_reachable",
         ],
         "profiles": [{"name": "sys_evt", "shards": {"thorough": 8}}],
@@ -156,7 +166,7 @@ PROPS = {
         "assumptions": ["The history theorems are about the server (any number of clients); the client queue and the client send cursor have their own theorems (all queue states / all histories of one app); the transport's exactly-once/in-order delivery on ordered channels is an assumption about the backend (checked for the example backend by C17). A client that connects between an event's emission and the server frame that reads it counts as connected before the event was sent (the event is sent in that frame)."],
     },
     "C13": {
-        "modules": ["Replicon.Props.C13"],
+        "modules": ["Replicon.Props.C13", "Replicon.Proofs.JumpEvents"],
         "theorems": [
             "Replicon.C13.C13_conditions_exclusive",
             "Replicon.C13.C13_one_path_per_frame",
@@ -168,6 +178,7 @@ PROPS = {
             "Replicon.C13.C13_local_server_events",
             "Replicon.C13.C13_local_recipient",
             "Replicon.C13.C13_history_local",
+            "Replicon.C13.C13_history_local_with_tick_jumps",
             "Replicon.C13.C13_history_local_after_frame",
         ],
         "profiles": [{"name": "sys_evt", "shards": {"thorough": 8}}],
@@ -196,7 +207,7 @@ PROPS = {
         "assumptions": ["The theorems cover the decoders of the harness's channel kinds (fixint u16 acks, postcard varints, replicon's entity codec, Bevy's Entity::try_from_bits, trigger target lists); other event types use the same primitives plus serde-derived code that is not modelled."],
     },
     "C07": {
-        "modules": ["Replicon.Props.C07", "Replicon.Proofs.ClientVals"],
+        "modules": ["Replicon.Props.C07", "Replicon.Proofs.ClientVals", "Replicon.Proofs.Jump"],
         "theorems": [
             "Replicon.C07.C07_unauthorized_silent",
             "Replicon.C07.C07_full_state_on_authorization",
@@ -217,7 +228,7 @@ PROPS = {
         "assumptions": ["The requirement 'ClientTicks exists only on authorized clients' (Bevy required components) is modelled as a flag and tied by the lock-step comparison."],
     },
     "C09": {
-        "modules": ["Replicon.Props.C09"],
+        "modules": ["Replicon.Props.C09", "Replicon.Proofs.Jump"],
         "theorems": [
             "Replicon.C09.C09_client_reset",
             "Replicon.C09.C09_server_forgets_client",
@@ -226,6 +237,7 @@ PROPS = {
             "Replicon.C09.C09_new_session_round_trip",
             "Replicon.C09.C09_server_state_is_fresh",
             "Replicon.C09.C09_history_session_clean",
+            "Replicon.C09.C09_history_session_clean_with_tick_jumps",
         ],
         "profiles": [{"name": "sys", "shards": {"thorough": 8}}, {"name": "sys_auth", "shards": {"thorough": 4}},
                      {"name": "sys_evt", "shards": {"thorough": 4}}],
@@ -296,7 +308,7 @@ PROPS = {
                         "known finding F22: with tracking the server splits against a 10-byte reserve for the counter (tagged by the trace checker)"],
     },
     "C08": {
-        "modules": ["Replicon.Props.C08"],
+        "modules": ["Replicon.Props.C08", "Replicon.Proofs.Jump"],
         "theorems": [
             "Replicon.C08.C08_refines",
             "Replicon.C08.C08_query",
@@ -469,7 +481,7 @@ MANIFEST_TEXT = {
         "technique": "Lean 4 proof (per-run theorems about executable server/client protocol models) + lock-step model/implementation correspondence on real traces + property oracle on the implementation",
     },
     "C02": {
-        "text": 'Lean theorems about the protocol models: a mutate record is applied to an entity completely (tick + all components) or not at all (C02_record_atomic); it is applied only if newer than the confirmed tick (C02_monotone); what the server sends for an entity contains every every-tick component changed after its belief (C02_record_complete); the client acknowledges exactly the messages it applies (C02_ack_on_apply, the F1 repair). The history-level statement (C02_truthful_partial) is checked as an oracle on the implementation after every client frame of every trace, with both models in lock step.',
+        "text": 'Lean theorems about the protocol models: a mutate record is applied to an entity completely (tick + all components) or not at all (C02_record_atomic); it is applied only if newer than the confirmed tick (C02_monotone); what the server sends for an entity contains every every-tick component changed after its belief (C02_record_complete); the client acknowledges exactly the messages it applies (C02_ack_on_apply, the F1 repair). Values: over ALL histories of the joint model and across both models, every record of the CHANGES section of an update message names a server entity and the client model fed the update messages of the session in order has, after applying it, exactly the current server value for every plain component kind the record names (C02_history_update_record_values); every record of the mutate messages of a run carries the current values and a receiver whose entity is confirmed at an older tick has exactly these afterwards, every other value unchanged (C02_mutate_record_values); an update message leaves a plain value alone unless it despawns the entity, removes that kind or has a CHANGES record for the entity naming the kind (C02_update_changes_only_named_values); and a present component of a visible entity is named by the CHANGES record or the mutate record of the entity unless the entity is known at some tick t, is not fresh, and the component was neither added in this tick window nor changed after t with a rate that fires (C02_pending_component_is_named). Across the 32-bit wrap: the wrapping comparison in the code of the message tick with the confirmed tick of the entity, and of the gate, decides as the comparison in the model of unbounded ticks whenever the ticks are less than half the range apart (C02_tick_decision_across_wrap, C02_gate_across_wrap), and the raw u32 comparison does not (C02_raw_comparison_skips_newer, the seeded change C02-e; exhibited on the implementation by the wrap-around cases of profile sys). The history-level statement (C02_truthful_partial) is checked as an oracle on the implementation after every client frame of every trace, with both models in lock step.',
         "design_ref": "DESIGN.md §7 C02",
         "note": "partial: the invariant relating the server's belief to in-flight messages is not proved as one theorem. Known finding F20 tagged by the trace checker.",
         "technique": "Lean 4 proof (per-run theorems about executable server/client protocol models) + lock-step model/implementation correspondence on real traces + property oracle on the implementation",
